@@ -233,7 +233,8 @@ pub fn run(tier: Tier) -> i32 {
         let name = "many-blocks";
         if ctx.may_start(name) {
             let t0 = Instant::now();
-            let counts: Vec<usize> = tier.pick(vec![4, 127, 128, 129, 300], vec![4, 5, 16, 127, 128, 129, 255, 256, 257, 300, 1000, 16383, 16384, 16385]);
+            // (40000 blocks: the index's record list is longer than 64 KiB)
+            let counts: Vec<usize> = tier.pick(vec![4, 127, 128, 129, 300, 40000], vec![4, 5, 16, 127, 128, 129, 255, 256, 257, 300, 1000, 16383, 16384, 16385, 40000, 70000]);
             par_for(counts.len() as u64 * 3, |i| {
                 let nb = counts[i as usize / 3];
                 let check = [0u8, 1, 4][i as usize % 3];
@@ -248,7 +249,21 @@ pub fn run(tier: Tier) -> i32 {
                 ctx.nontriv(1);
                 check_file(&ctx, &f, &format!("xz file with {} blocks of 0..2 content bytes, check {}", nb, check));
             });
-            ctx.scope_done(name, counts.len() as u64 * 3, t0, "block counts around 2^7 (and 2^8, 2^14 in the thorough tier)");
+            // one block far larger than the dictionary its filter announces (history older than the dictionary may be dropped
+            // by a decoder, but never data): uncompressed chunks without a dictionary reset, then a compressed one
+            let bigs: Vec<(u8, usize)> = tier.pick(vec![(0u8, 2_600_000usize), (16, 4_300_000)], vec![(0u8, 2_600_000usize), (16, 4_300_000), (0, 9_000_000), (18, 20_000_000)]);
+            par_for(bigs.len() as u64, |i| {
+                let (prop, n) = bigs[i as usize];
+                let blob: Vec<u8> = (0..n as u32).map(|k| (k.wrapping_mul(2246822519) >> 19) as u8).collect();
+                let mut cs: Vec<Chunk> = blob.chunks(65536).enumerate().map(|(k, c)| Chunk::U { reset: k == 0, data: c.to_vec() }).collect();
+                cs.push(Chunk::C { class: 2, props: (3, 0, 2), prog: vec![Sym::M(3, 50), Sym::L(7), Sym::M(4000, 20)] });
+                let w = lzma2::write(&cs);
+                let f = XzFile { check_id: 1, blocks: vec![Block { payload: w.bytes.clone(), plain: w.expect.clone(), o_filters: Some(vec![(xz::mbi(0x21), xz::mbi(1), vec![prop])]), ..Default::default() }], ..Default::default() };
+                ctx.eval(1);
+                ctx.nontriv(1);
+                check_file(&ctx, &f, &format!("xz block of {} bytes in {} chunks without dictionary reset, dictionary property byte {}", w.expect.len(), cs.len(), prop));
+            });
+            ctx.scope_done(name, counts.len() as u64 * 3 + bigs.len() as u64, t0, "block counts around 2^7 (2^8, 2^14, > 64 KiB of index records); blocks far larger than their dictionary");
         }
     }
     // ---------------------------------------------------------------- every legal LZMA2 dictionary-size property byte
@@ -270,7 +285,26 @@ pub fn run(tier: Tier) -> i32 {
                 ctx.nontriv(1);
                 check_file(&ctx, &f, &format!("xz file whose LZMA2 filter property byte is {} ({} block(s))", prop, nb));
             });
-            ctx.scope_done(name, 82, t0, "dictionary size byte 0..=40 (40 = 4 GiB - 1)");
+            // copies at exactly the announced dictionary size (and one less), after more than a dictionary of output
+            let small: Vec<(u8, u32)> = vec![(0, 4096), (1, 6144), (2, 8192), (3, 12288), (8, 65536)];
+            par_for(small.len() as u64, |i| {
+                let (prop, dict) = small[i as usize];
+                let mut prog: Vec<Sym> = (0..400u32).map(|k| Sym::L((k * 7 + k / 11 + prop as u32) as u8)).collect();
+                let mut produced = 400u32;
+                let mut k = 0u32;
+                while produced < dict + 300 {
+                    prog.push(Sym::M(1 + (k * 53) % 390, 270));
+                    produced += 270;
+                    k += 1;
+                }
+                prog.extend([Sym::M(dict, 9), Sym::L(0x31), Sym::M(dict - 1, 4), Sym::L(0x32), Sym::R(1, 3), Sym::M(dict, 273)]);
+                let w = lzma2::write(&[Chunk::C { class: 3, props: (3, 0, 2), prog }]);
+                let f = XzFile { check_id: 4, blocks: vec![Block { payload: w.bytes.clone(), plain: w.expect.clone(), with_usize: true, o_filters: Some(vec![(xz::mbi(0x21), xz::mbi(1), vec![prop])]), ..Default::default() }], ..Default::default() };
+                ctx.eval(1);
+                ctx.nontriv(1);
+                check_file(&ctx, &f, &format!("xz block announcing a {}-byte dictionary (property byte {}) with copies at distance {} and {}", dict, prop, dict, dict - 1));
+            });
+            ctx.scope_done(name, 82 + small.len() as u64, t0, "dictionary size byte 0..=40 (40 = 4 GiB - 1); copies at exactly the announced size");
         }
     }
     // ---------------------------------------------------------------- multibyte integer widths as true sizes
